@@ -59,6 +59,7 @@ type Report struct {
 	Notes       []string       `json:"notes,omitempty"`
 	Exhaustive  map[string]int `json:"exhaustive,omitempty"`
 	seen        map[[32]byte]bool
+	perKind     map[string]int
 }
 
 func NewReport(prop string, seed uint64) *Report {
@@ -88,7 +89,13 @@ func (r *Report) Fail(f Failure) {
 	if f.InputHex == "" {
 		f.InputHex = hex.EncodeToString([]byte(f.Input))
 	}
-	if len(r.Failures) < 200 {
+	// bounded PER KIND (and overall), so that many instances of one kind - a known finding at
+	// thorough size - can never crowd out a failure of another kind
+	if r.perKind == nil {
+		r.perKind = map[string]int{}
+	}
+	if r.perKind[f.Kind] < 200 && len(r.Failures) < 4000 {
+		r.perKind[f.Kind]++
 		r.Failures = append(r.Failures, f)
 	}
 }
